@@ -116,6 +116,11 @@ impl std::fmt::Display for Elapsed {
     }
 }
 impl std::error::Error for Elapsed {}
+impl From<Elapsed> for std::io::Error {
+    fn from(_: Elapsed) -> std::io::Error {
+        std::io::ErrorKind::TimedOut.into()
+    }
+}
 
 pub struct Timeout<F> {
     fut: Pin<Box<F>>,
@@ -139,29 +144,73 @@ pub fn timeout<F: Future>(d: Duration, fut: F) -> Timeout<F> {
     Timeout { fut: Box::pin(fut), sleep: sleep(d) }
 }
 
+pub fn timeout_at<F: Future>(deadline: Instant, fut: F) -> Timeout<F> {
+    Timeout { fut: Box::pin(fut), sleep: sleep_until(deadline) }
+}
+
+impl<F> Timeout<F> {
+    pub fn get_ref(&self) -> &F {
+        &self.fut
+    }
+    pub fn into_inner(self) -> Pin<Box<F>> {
+        self.fut
+    }
+}
+
+/// What an `Interval` does about ticks it missed (accepted and recorded; the simulated interval
+/// always continues from the tick it delivered, which is `Burst`'s schedule).
+#[derive(Clone, Copy, Debug, PartialEq, Eq, Default)]
+pub enum MissedTickBehavior {
+    #[default]
+    Burst,
+    Delay,
+    Skip,
+}
+
 pub struct Interval {
     period: Duration,
     next: Instant,
+    missed: MissedTickBehavior,
 }
 
 impl Interval {
     pub async fn tick(&mut self) -> Instant {
         let at = self.next;
         sleep_until(at).await;
-        self.next = at + self.period;
+        let now = Instant::now();
+        self.next = match self.missed {
+            MissedTickBehavior::Burst => at + self.period,
+            MissedTickBehavior::Delay => now + self.period,
+            MissedTickBehavior::Skip => {
+                let mut n = at + self.period;
+                while n <= now {
+                    n = n + self.period;
+                }
+                n
+            }
+        };
         at
     }
     pub fn period(&self) -> Duration {
         self.period
     }
+    pub fn reset(&mut self) {
+        self.next = Instant::now() + self.period;
+    }
+    pub fn missed_tick_behavior(&self) -> MissedTickBehavior {
+        self.missed
+    }
+    pub fn set_missed_tick_behavior(&mut self, b: MissedTickBehavior) {
+        self.missed = b;
+    }
 }
 
 pub fn interval(period: Duration) -> Interval {
     assert!(period > Duration::ZERO, "`period` must be non-zero.");
-    Interval { period, next: Instant::now() }
+    Interval { period, next: Instant::now(), missed: MissedTickBehavior::Burst }
 }
 
 pub fn interval_at(start: Instant, period: Duration) -> Interval {
     assert!(period > Duration::ZERO, "`period` must be non-zero.");
-    Interval { period, next: start }
+    Interval { period, next: start, missed: MissedTickBehavior::Burst }
 }
